@@ -88,6 +88,8 @@ def run(F, R, ctx):
     symbol_identity_rule(F, R)
     visited_rules(F, R)
     shortcut_rule(F, R)
+    list_identity_rule(F, R)
+    cross_kind_hash_rule(F, R)
     for v in sorted(hc):
         R.inst("C11.h", "hash arm %s is implemented" % v, hc[v][0] != "panic",
                "<SteelVal as Hash>::hash panics for SteelVal::%s: using such a value as a key aborts the host" % v, h.loc(),
@@ -675,3 +677,67 @@ def shortcut_rule(F, R):
                    f.loc(where_), sample={"pairs_simulated": len(cross), "offending": offenders[:8]})
     R.note("C11.x: cross-kind pairs with an arm in visit: %s" % ", ".join("(%s, %s)" % p for p in cross))
     R.floor("C11.x", "inner pair matches in the equality machinery", n, 1)
+
+
+def list_identity_rule(F, R):
+    R.rule("C11.q", "`same list` is decided from the whole identity of a list: the persistent list's storage_ptr_eq compares the "
+                    "element storage and index of the FIRST node only (take / append copy that node, and the copy shares its "
+                    "elements), so every function of steel-core that calls it also compares the next pointers "
+                    "(next_ptr_as_usize) — or is the one helper that does, and equality code calls the helper. nc: two lists of "
+                    "different length, or with different tails behind a shared first chunk, were equal? and eq?")
+    n = 0
+    for name, fn in sorted(F.fns.items()):
+        if not name.startswith("steel::"):
+            continue
+        cs = [b for _, b in fn.calls() if re.search(r"GenericList<[^}]*\}::storage_ptr_eq$", b["callee"])]
+        if not cs:
+            continue
+        n += 1
+        nx = [b for _, b in fn.calls() if re.search(r"GenericList<[^}]*\}::next_ptr_as_usize$", b["callee"])]
+        R.inst("C11.q", "%s / storage_ptr_eq together with the next pointers" % fn.short(), len(nx) >= 2,
+               "%s treats two lists as the same list when their first nodes share element storage and index (storage_ptr_eq, "
+               "line %s) without comparing what follows the first node: lists that share a first chunk but differ in length or "
+               "tail compare equal" % (fn.short(), cs[0]["line"]), fn.loc(cs[0]["line"]), sample=True)
+    R.floor("C11.q", "users of the first-node storage comparison", n, 1)
+
+
+def cross_kind_hash_rule(F, R):
+    R.rule("C11.g", "kinds that can be equal? to each other hash under the same tag: RecursiveEqualityHandler::visit has arms "
+                    "for pairs of different kinds (derived; Custom excluded — user-defined equality); for each such pair "
+                    "<SteelVal as Hash>::hash must not feed mem::discriminant(self) into the hasher on the way both kinds take "
+                    "(the call lies outside the arms of the two kinds, or the two kinds share the arm of the match that chooses "
+                    "the tag). nc: two equal? values with different hashes are not interchangeable as hash-map keys")
+    fn, tup, top_v, pair_arm, hdr = _visit_tree(F)
+    kinds = [v["name"] for v in F.adt("SteelVal")["variants"]]
+    fall = pair_arm("Void", "BoolV")
+    cross = sorted({tuple(sorted((l, r))) for l in kinds for r in kinds if l != r and "Custom" not in (l, r) and pair_arm(l, r) != fall})
+    h = F.one(r"\{impl Hash for SteelVal\}::hash$")
+    sws = lib.enum_switches(h, "SteelVal")
+    if not sws:
+        raise CheckError("anchor lost: <SteelVal as Hash>::hash does not match on the value")
+    dom = h.dominators()
+    first = min(sws)
+    disc = [i for i, b in h.calls() if re.search(r"core::mem::discriminant$", b["callee"])
+            and "_1" in lib.alias_sources(h, re.match(r"_\d+", b["args"][0]).group(0), 4)]
+    n = 0
+    for (a, b_) in cross:
+        n += 1
+        am = lib.arm_map(h, first)
+        ta, tb = am.get(a, am["_"]), am.get(b_, am["_"])
+        bad = None
+        for d in disc:
+            if d in dom[first] or first not in dom[d]:
+                # tag taken before / independently of the first match: applies to every kind
+                if d in dom[first]:
+                    bad = d
+                continue
+            ra = d == ta or d in h.reachable_from([ta], avoid={first})
+            rb = d == tb or d in h.reachable_from([tb], avoid={first})
+            if (ra or rb) and ta != tb:
+                bad = d
+        R.inst("C11.g", "Hash / (%s, %s) hash under one tag" % (a, b_), bad is None,
+               "<SteelVal as Hash>::hash feeds mem::discriminant(self) into the hasher for %s and %s (line %s), two kinds that "
+               "RecursiveEqualityHandler::visit can find equal: equal? values of the two kinds have different hashes, so one "
+               "cannot be looked up with the other in a hash map or set" % (a, b_, h.blocks[bad].get("line") if bad is not None else ""),
+               h.loc(h.blocks[bad].get("line") if bad is not None else None), sample=True)
+    R.floor("C11.g", "cross-kind comparable pairs (Custom aside)", n, 1)
